@@ -433,6 +433,7 @@ def runOp (s : Sexp) : String :=
   | .list [.atom "jdeep", .atom _] => "unsupported"
   -- hundreds of thousands of elements: the model's decoder is quadratic in the element count; oracle only
   | .list [.atom "declong", _, _, .atom _, .atom _] => "unsupported"
+  | .list [.atom "internmany", .atom _] => "unsupported"
   -- `type P *P`: no finite TyDef
   | .list [.atom "buildself", .atom _] => "unsupported"
   | .list [.atom "zag", .atom n] =>
